@@ -28,6 +28,10 @@ fn check_stream(ts: &TokenStream, kind: &str, file: &str, sc: &mut Scan) {
                 if s == "unsafe" {
                     sc.findings.push((kind.to_string(), file.to_string(), s.clone(), line));
                 }
+                // emitted code whose meaning depends on the build profile or the target of the *user's* crate
+                if matches!(s.as_str(), "debug_assert" | "debug_assert_eq" | "debug_assert_ne" | "debug_assertions" | "overflow_checks" | "to_ne_bytes" | "from_ne_bytes" | "target_endian" | "target_pointer_width") {
+                    sc.findings.push((kind.to_string(), file.to_string(), s.clone(), line));
+                }
                 if s == "std" || s == "alloc" {
                     // a path root: followed by `::`
                     let next_colon = matches!(toks.get(i + 1), Some(TokenTree::Punct(p)) if p.as_char() == ':');
@@ -154,7 +158,8 @@ fn gen() -> TokenStream {
     let a = quote! { pub fn f() { unsafe { ::std::mem::zeroed() } } };
     let b = syn::parse_str::<Type>(format!("alloc::vec::Vec<u{}>", 8).as_str());
     let c = quote! { ::core::alloc::Layout };
-    quote! { #a #b #c }
+    let d = quote! { debug_assert!(index < 4); };
+    quote! { #a #b #c #d }
 }
 "##;
 
@@ -193,7 +198,7 @@ fn main() {
     let mut st = Scan::default();
     walk(&TokenStream::from_str(FIXTURE).unwrap(), "<fixture>", &mut st);
     let has = |tok: &str, kind: &str| st.findings.iter().any(|f| f.2 == tok && f.0 == kind);
-    let selftest = has("unsafe", "template") && has("std::", "template") && has("alloc::", "string") && st.findings.len() == 3 && st.templates == 3;
+    let selftest = has("unsafe", "template") && has("std::", "template") && has("alloc::", "string") && has("debug_assert", "template") && st.findings.len() == 4 && st.templates == 4;
     let findings: Vec<String> = sc
         .findings
         .iter()
